@@ -112,3 +112,131 @@ theorem foldl_inv {σ β : Type} (P : σ → Prop) (step : σ → β → σ)
   | cons p l ih => exact ih _ (h _ _ h0)
 
 end FxVerif.Proofs.C14
+
+namespace FxVerif.Proofs.C14
+open FxVerif.Model.C14
+
+section rekey
+variable {β ν : Type} [DecidableEq β]
+
+/-- the store component of the `Execute` loops: delete the record under (from, x), set it under (to, x) -/
+def rekeyStep (frm to : Addr) (m : Store (Addr × β) ν) (p : (Addr × β) × ν) : Store (Addr × β) ν :=
+  put (del m (frm, p.1.2)) (to, p.1.2) p.2
+
+theorem rekey_other (frm to : Addr) (L : List ((Addr × β) × ν)) (m : Store (Addr × β) ν) (d : Addr) (x : β)
+    (h1 : d ≠ frm) (h2 : d ≠ to) : get (L.foldl (rekeyStep frm to) m) (d, x) = get m (d, x) := by
+  induction L generalizing m with
+  | nil => rfl
+  | cons p L ih =>
+    simp only [List.foldl_cons]
+    rw [ih, rekeyStep, get_put_ne _ _ _ _ (by intro e; cases e; exact h2 rfl),
+      get_del_ne _ _ _ (by intro e; cases e; exact h1 rfl)]
+
+theorem rekey_to_absent (frm to : Addr) (hne : frm ≠ to) (L : List ((Addr × β) × ν)) (m : Store (Addr × β) ν) (x : β)
+    (h : ∀ p ∈ L, p.1.2 ≠ x) : get (L.foldl (rekeyStep frm to) m) (to, x) = get m (to, x) := by
+  induction L generalizing m with
+  | nil => rfl
+  | cons p L ih =>
+    simp only [List.foldl_cons]
+    rw [ih _ (fun q hq => h q (List.mem_cons_of_mem _ hq)), rekeyStep,
+      get_put_ne _ _ _ _ (by intro e; cases e; exact h p (List.mem_cons_self ..) rfl),
+      get_del_ne _ _ _ (by intro e; cases e; exact hne rfl)]
+
+theorem rekey_to_present (frm to : Addr) (hne : frm ≠ to) (L : List ((Addr × β) × ν)) (m : Store (Addr × β) ν) (x : β)
+    (y : ν) (hval : ∀ p ∈ L, p.1.2 = x → p.2 = y) (hex : ∃ p ∈ L, p.1.2 = x) :
+    get (L.foldl (rekeyStep frm to) m) (to, x) = some y := by
+  induction L generalizing m with
+  | nil => obtain ⟨p, hp, _⟩ := hex; cases hp
+  | cons p L ih =>
+    simp only [List.foldl_cons]
+    by_cases hL : ∃ q ∈ L, q.1.2 = x
+    · exact ih _ (fun q hq => hval q (List.mem_cons_of_mem _ hq)) hL
+    · have hno : ∀ q ∈ L, q.1.2 ≠ x := fun q hq e => hL ⟨q, hq, e⟩
+      rw [rekey_to_absent frm to hne L _ x hno]
+      obtain ⟨q, hq, hqx⟩ := hex
+      have hp : p.1.2 = x := by
+        rcases List.mem_cons.mp hq with rfl | hq'
+        · exact hqx
+        · exact absurd hqx (hno q hq')
+      rw [rekeyStep, hp, get_put_eq, hval p (List.mem_cons_self ..) hp]
+
+theorem rekey_from_none (frm to : Addr) (hne : frm ≠ to) (L : List ((Addr × β) × ν)) (m : Store (Addr × β) ν) (x : β)
+    (h : get m (frm, x) = none) : get (L.foldl (rekeyStep frm to) m) (frm, x) = none := by
+  induction L generalizing m with
+  | nil => exact h
+  | cons p L ih =>
+    simp only [List.foldl_cons]
+    apply ih
+    rw [rekeyStep, get_put_ne _ _ _ _ (by intro e; cases e; exact hne rfl)]
+    by_cases hp : p.1.2 = x
+    · rw [hp, get_del_eq]
+    · rw [get_del_ne _ _ _ (by intro e; cases e; exact hp rfl), h]
+
+theorem rekey_from_present (frm to : Addr) (hne : frm ≠ to) (L : List ((Addr × β) × ν)) (m : Store (Addr × β) ν) (x : β)
+    (hex : ∃ p ∈ L, p.1.2 = x) : get (L.foldl (rekeyStep frm to) m) (frm, x) = none := by
+  induction L generalizing m with
+  | nil => obtain ⟨p, hp, _⟩ := hex; cases hp
+  | cons p L ih =>
+    simp only [List.foldl_cons]
+    by_cases hp : p.1.2 = x
+    · apply rekey_from_none frm to hne
+      rw [rekeyStep, get_put_ne _ _ _ _ (by intro e; cases e; exact hne rfl), hp, get_del_eq]
+    · obtain ⟨q, hq, hqx⟩ := hex
+      rcases List.mem_cons.mp hq with rfl | hq'
+      · exact absurd hqx hp
+      · exact ih _ ⟨q, hq', hqx⟩
+
+end rekey
+
+/-- entries an iterator over the prefix of `a` yields -/
+def entriesOf {β ν : Type} [DecidableEq β] [BEq ν] (m : Store (Addr × β) ν) (a : Addr) : Store (Addr × β) ν :=
+  (visible m).filter (fun p => p.1.1 == a)
+
+theorem entriesOf_spec {β ν : Type} [DecidableEq β] [BEq ν] [LawfulBEq ν] (m : Store (Addr × β) ν) (a : Addr)
+    (p : (Addr × β) × ν) : p ∈ entriesOf m a ↔ p ∈ m ∧ get m p.1 = some p.2 ∧ p.1.1 = a := by
+  simp only [entriesOf, visible, List.mem_filter, beq_iff_eq, and_assoc]
+
+theorem entriesOf_of_get {β ν : Type} [DecidableEq β] [BEq ν] [LawfulBEq ν] (m : Store (Addr × β) ν) (a : Addr) (x : β)
+    (y : ν) (h : get m (a, x) = some y) : ∃ p ∈ entriesOf m a, p.1.2 = x := by
+  exact ⟨((a, x), y), (entriesOf_spec m a _).mpr ⟨get_some_mem m _ _ h, h, rfl⟩, rfl⟩
+
+theorem entriesOf_val {β ν : Type} [DecidableEq β] [BEq ν] [LawfulBEq ν] (m : Store (Addr × β) ν) (a : Addr) (x : β)
+    (y : ν) (h : get m (a, x) = some y) : ∀ p ∈ entriesOf m a, p.1.2 = x → p.2 = y := by
+  intro p hp hx
+  obtain ⟨_, hg, ha⟩ := (entriesOf_spec m a p).mp hp
+  have : p.1 = (a, x) := by cases p with | mk k v => cases k; simp_all
+  rw [this, h] at hg
+  exact (Option.some.inj hg).symm
+
+theorem entriesOf_none {β ν : Type} [DecidableEq β] [BEq ν] [LawfulBEq ν] (m : Store (Addr × β) ν) (a : Addr) (x : β)
+    (h : get m (a, x) = none) : ∀ p ∈ entriesOf m a, p.1.2 ≠ x := by
+  intro p hp hx
+  obtain ⟨_, hg, ha⟩ := (entriesOf_spec m a p).mp hp
+  have : p.1 = (a, x) := by cases p with | mk k v => cases k; simp_all
+  rw [this, h] at hg
+  cases hg
+
+/-- the rekeyed store: what the record store looks like after the loop over the entries of `from` -/
+theorem rekey_spec {β ν : Type} [DecidableEq β] [BEq ν] [LawfulBEq ν] (m : Store (Addr × β) ν) (frm to : Addr)
+    (hne : frm ≠ to) (hto : ∀ p ∈ m, p.1.1 ≠ to) (d : Addr) (x : β) :
+    get ((entriesOf m frm).foldl (rekeyStep frm to) m) (d, x) =
+      if d = to then get m (frm, x) else if d = frm then none else get m (d, x) := by
+  by_cases h2 : d = to
+  · subst h2
+    simp only [↓reduceIte]
+    cases hg : get m (frm, x) with
+    | none =>
+      rw [rekey_to_absent frm d hne _ _ _ (entriesOf_none m frm x hg)]
+      exact get_none_of_no_key m _ (fun p hp e => hto p hp (by rw [e]))
+    | some y => exact rekey_to_present frm d hne _ _ _ y (entriesOf_val m frm x y hg) (entriesOf_of_get m frm x y hg)
+  · simp only [h2, ↓reduceIte]
+    by_cases h1 : d = frm
+    · subst h1
+      simp only [↓reduceIte]
+      cases hg : get m (d, x) with
+      | none => exact rekey_from_none d to hne _ _ _ hg
+      | some y => exact rekey_from_present d to hne _ _ _ (entriesOf_of_get m d x y hg)
+    · simp only [h1, ↓reduceIte]
+      exact rekey_other frm to _ _ d x h1 h2
+
+end FxVerif.Proofs.C14
